@@ -24,8 +24,9 @@ CASE_TIMEOUT_S = 30
 LEVEL_TEXT = ("Lean 4 theorems that the merge of per-chunk results equals the routine on the whole array, for every chunking "
               "(empty chunks included): searchsorted_den (sorted a; block results with 0->-1, offsets, max, -1->0 = global "
               "count of elements < / <= y), bincount_den (_bincount_agg of per-chunk bincounts), histogram_den (fixed edges), "
-              "unique_merge and unique_den (_unique_internal per chunk then on the concatenation = sorted distinct values "
-              "with first index and count; also any tree of partial merges), nonzero_den, count_nonzero_den, isin_den, "
+              "bincount_weights_den (exact weights), unique_merge and unique_den (_unique_internal per chunk then on the "
+              "concatenation = sorted distinct values with first index and count; also any tree of partial merges), "
+              "unique_inverse_den (the masked-sum formula of return_inverse), nonzero_den, count_nonzero_den, isin_den, "
               "coarsen_den (aligned chunks). Over exact ordered values; weights, float bin edges, NaN, density, histogram2d, "
               "digitize, ravel/unravel_index, compress/extract, return_inverse and n-d inputs are validated against NumPy, "
               "not proved.")
@@ -106,6 +107,13 @@ def case_bincount(ctx, inp):
         e = np.bincount(x, weights=w, **kw)
         r = da.bincount(d, weights=da.from_array(w, chunks=(cs,)), split_every=inp.get("split_every"), **kw)
         ctx.branch("bincount:weights")
+        if len(x) and all(float(v * 4).is_integer() for v in w):
+            # exact model with the weights scaled to integers (quarters)
+            wi = [int(v * 4) for v in w]
+            m = ctx.lean(Sym("bincount_w"), _split(x, cs), _split(wi, cs), kw["minlength"])
+            ctx.eq("bincount(weights): Lean merge of per-chunk results = whole", m[0], m[1])
+            ctx.eq("bincount(weights): Lean vs NumPy", [v / 4 for v in m[1]], e.tolist())
+            ctx.branch("bincount:weights:model")
     else:
         e = np.bincount(x, **kw)
         r = da.bincount(d, split_every=inp.get("split_every"), **kw)
@@ -211,6 +219,11 @@ def case_unique(ctx, inp):
     names = ["values"] + [k for k in ("return_index", "return_inverse", "return_counts") if inp.get(k)]
     for nm, g, ee in zip(names, gs, es):
         _cmp(ctx, "unique " + nm + (" (array containing NaN)" if has_nan else ""), g, ee, sig=sig)
+    if x.dtype.kind == "i" and inp.get("return_inverse") and len(gs) == len(names):
+        inv = gs[names.index("return_inverse")]
+        ctx.eq("unique(return_inverse): Lean masked-sum formula vs dask", ctx.lean(Sym("unique_inverse"), [int(v) for v in x.ravel()]),
+               np.asarray(inv).ravel().tolist())
+        ctx.branch("unique:inverse:model")
     if x.ndim == 1 and x.dtype.kind == "i" and inp.get("return_index") and inp.get("return_counts") and not inp.get("return_inverse"):
         m = ctx.lean(Sym("unique"), _split(x, chunks[0]))
         ctx.eq("unique: Lean per-chunk + merge = whole", m[0], m[1])
@@ -479,6 +492,13 @@ def generate(ctx):
         if op == "count_nonzero":
             inp["axis"] = rng.choice([None, rng.randrange(len(shape)), sorted(rng.sample(range(len(shape)), rng.randint(1, len(shape))))])
         yield "nonzero", inp
+    # --- 1-d coarsen with chunks aligned to the factor (the case `coarsen_den` is about) -------------------------
+    for _ in range(ctx.n(40, 500)):
+        dv = rng.randint(1, 4)
+        chunks = [dv * c for c in rand_comp(rng, rng.randint(1, 6))]
+        n = sum(chunks)
+        yield "misc", {"op": "coarsen", "x": [rng.randint(0, 9) for _ in range(n)], "shape": [n], "chunks": [chunks],
+                       "axes": {"0": dv}, "red": "sum", "trim": rng.random() < 0.5}
     # --- the rest -----------------------------------------------------------------------------------------------
     for _ in range(ctx.n(220, 2500)):
         op = rng.choice(["isin", "digitize", "ravel_multi_index", "unravel_index", "coarsen", "coarsen", "compress", "extract"])
